@@ -32,8 +32,9 @@ def gen_cases(ctx, n_grammars, n_inputs):
             ("notlalr", lambda: G.not_lalr_template(rng)),
             ("layered", lambda: G.layered_grammar(rng).reduced()),
             ("chain", lambda: G.chain_grammar(rng).reduced()),
-            ("notlalr3", lambda: G.not_lalr_multi(rng).reduced())]
-    weights = [2, 5, 4, 2, 1, 2, 8, 4, 3]
+            ("notlalr3", lambda: G.not_lalr_multi(rng).reduced()),
+            ("depthmerge", lambda: G.depth_merge_grammar(rng).reduced())]
+    weights = [2, 5, 4, 2, 1, 2, 8, 4, 3, 3]
     while len(cases) < n_grammars:
         name, f = rng.choices(fams, weights)[0]
         g = f()
